@@ -338,7 +338,14 @@ func judge(s Spec) verdict {
 	}
 	want, err := expected(p, streams, false)
 	if err != nil {
-		ev.Fatal("reference fingerprint for %+v: %v", s, err)
+		if strings.Contains(err.Error(), ir.ErrInexpressible.Error()) {
+			ev.Fatal("reference body for %+v cannot be rendered: %v", s, err)
+		}
+		// the plainest body there is — one stream, one entry — was not decoded to exactly one row
+		v.outcome = p.Name + ":reference_body_mishandled"
+		v.class = "single_stream_single_entry_body_mishandled:" + p.Name
+		v.what = fmt.Sprintf("%s: %v", p.Name, err)
+		return v
 	}
 	got := out.Rows()
 	d, missing, extra := ir.Diff(want, got)
@@ -517,12 +524,15 @@ func renderings(p *ir.Proto, nLabels int, full bool) []ir.Opt {
 						for _, sv := range []bool{false, true} {
 							out = append(out, ir.Opt{Place: place, Typed: typed, OmitEmpty: oe, PerEntry: pe, SevAsLevel: sv})
 						}
+						if typed == 0 { // all streams under one ResourceLogs, one ScopeLogs per stream
+							out = append(out, ir.Opt{Place: place, OmitEmpty: oe, PerEntry: pe, OneRes: true})
+						}
 					}
 				}
 			}
 		}
 		if !full {
-			out = []ir.Opt{{Place: places - 1}, {Place: 0, Typed: 1, PerEntry: true, SevAsLevel: true}, {Place: places / 2, OmitEmpty: true}}
+			out = []ir.Opt{{Place: places - 1}, {Place: 0, Typed: 1, PerEntry: true, SevAsLevel: true}, {Place: places / 2, OmitEmpty: true}, {Place: places - 1, OneRes: true}}
 		}
 	}
 	return out
@@ -583,11 +593,13 @@ func enumerate(thorough bool, emit func(Spec)) map[string]int64 {
 		if p == ir.DatadogLogs {
 			pairs = [][]int{{0, 1}, {2, 4}, {7, 2}}
 		}
-		for _, pr := range pairs {
+		for pi, pr := range pairs {
+			// quick: the first pair with every rendering, the other pairs with the reduced rendering list
+			full := thorough || pi == 0
 			for _, sh := range shapes(2, nv, 2) {
-				for _, o := range renderings(p, maxLabels(p, pr), true) {
+				for _, o := range renderings(p, maxLabels(p, pr), full) {
 					for _, same := range []bool{false, true} {
-						if same && !thorough && (p == ir.LokiJSON || p == ir.OTLPLogs) && (o.Perm > 0 || o.Third > 0 || o.Typed > 0) {
+						if same && !thorough && (p == ir.LokiJSON || p == ir.OTLPLogs) && (o.Perm > 0 || o.Third > 0 || o.Typed > 0 || o.OneRes) {
 							continue
 						}
 						send("small_B_2streams_entrylists_x_renderings", Spec{Space: "small", Proto: p.Name, Opt: o, Labels: pr, Shape: sh, SameTs: same})
